@@ -142,25 +142,6 @@ theorem drains {w : World} (h : Reachable w) {k : Nat} {c : Call} (hk : w.calls[
 
 /-! ### a second bind during serving -/
 
-/-- **bind_refused_while_running**: while the service is running, the running check of `Bind` (alone or inside
-    `Listen`) makes the call return "already running" at once, and nothing else changes: the running flag,
-    the listener field and every listener, the counter, the address fields, all connections and all other
-    calls are exactly as before — in particular no teardown of the running service happens. -/
-theorem bind_refused_while_running {w : World} {k : Nat} {c : Call} (hk : w.calls[k]? = some c)
-    (hpc : c.pc = .bindCheck) (hrun : w.running = true) :
-    step w (.call k) = some { w with calls := w.calls.set k { c with pc := .returned, ret := some .errRunning } } := by
-  simp [step, stepCall, hk, hpc, hrun, World.setCall]
-
-/-- regression witness for the repaired defect (fix 93d57c1): with the OLD behaviour — the refused `Listen` ran
-    the deferred teardown — the history  serve; second Listen (refused); Shutdown; client connects  leaves the
-    first call blocked in Accept on a listener that Shutdown no longer finds, and the late client is accepted. -/
-def oldDefectTrace : Option World :=
-  (run init [.spawn .bind false (some 0), .call 0, .call 0, .call 0, .call 0,      -- Bind
-             .spawn .doListen false none, .call 1, .call 1, .call 1,               -- DoListen … blocked in Accept
-             .spawn .listen false (some 1)]).bind fun w =>                          -- second Listen
-  (refusedListenOld w 2).bind fun w =>                                              -- OLD: refused + teardown
-  run w [.shutdown, .clientConnect 0, .call 1]                                      -- Shutdown; late client; Accept
-
 structure Obs where
   running : Bool
   lst : Option Nat
@@ -172,13 +153,129 @@ structure Obs where
 def obs (w : World) : Obs :=
   ⟨w.running, w.lst, isOpen w 0, w.calls.map (fun c => (c.pc, c.ret)), w.conns.map (·.phase)⟩
 
+/-- **bind_refused_while_running**: while the service is running, `Bind` (alone or inside `Listen`) returns
+    "already running" at once, and nothing else changes: the running flag, the listener field and every listener,
+    the counter, the address fields, all connections and all other calls are exactly as before — in particular no
+    teardown of the running service happens. (Any state, reachable or not.) -/
+theorem bind_refused_while_running {w : World} {k : Nat} {c : Call} (hk : w.calls[k]? = some c)
+    (hpc : c.pc = .bindCheck) (hrun : w.running = true) :
+    step w (.call k) = some { w with calls := w.calls.set k { c with pc := .returned, ret := some .errRunning } } := by
+  simp [step, stepCall, hk, hpc, hrun, World.setCall]
+
+/-- **second_bind_refused_any** (the same, field by field): in EVERY state with `running = true` the step of a Bind
+    or Listen call at its first program counter is enabled, the call has `returned` with "already running" — it is
+    not at `teardown`/`waiting`, so no teardown runs —, and running, listener field, all listeners (so nothing was
+    closed), counter, address fields, connections, the wait-group panic flag and every other call are unchanged. -/
+theorem second_bind_refused_any {w : World} {k : Nat} {c : Call} (hk : w.calls[k]? = some c)
+    (hpc : c.pc = .bindCheck) (hrun : w.running = true) :
+    ∃ w', step w (.call k) = some w' ∧
+      w'.running = w.running ∧ w'.lst = w.lst ∧ w'.lsnrs = w.lsnrs ∧ w'.counter = w.counter ∧
+      w'.addrF = w.addrF ∧ w'.conns = w.conns ∧ w'.wgPanic = w.wgPanic ∧
+      w'.calls[k]? = some { c with pc := .returned, ret := some .errRunning } ∧
+      (∀ j, j ≠ k → w'.calls[j]? = w.calls[j]?) :=
+  ⟨_, bind_refused_while_running hk hpc hrun, rfl, rfl, rfl, rfl, rfl, rfl, rfl, getElem?_set_eq' hk,
+    fun _ hj => getElem?_set_ne' (fun e => hj e.symm)⟩
+
+/-- **bind_atomic**: the start-up of `Bind` / `Listen` is ONE step of the transition system (one critical section of
+    the code, fix a1069ea), in any state: after it the call has either returned — refused (nothing changed), with a
+    parse or listen error (running, listener field, listeners untouched; no teardown), or, for `Bind`, with nil and
+    the new open listener stored — or, for `Listen`, it is at the loop check with `running = true` and its local `l`
+    equal to the stored new listener. No state exists in which the running check has passed and the listener is not
+    yet stored, or the listener is stored and the serving call is not yet running. -/
+theorem bind_atomic {w w' : World} {k : Nat} {c : Call} (hk : w.calls[k]? = some c) (hpc : c.pc = .bindCheck)
+    (hs : step w (.call k) = some w') :
+    ∃ c', w'.calls[k]? = some c' ∧ c'.kind = c.kind ∧
+      ((w.running = true ∧ c'.pc = .returned ∧ c'.ret = some .errRunning ∧
+          w'.running = w.running ∧ w'.lst = w.lst ∧ w'.lsnrs = w.lsnrs ∧ w'.addrF = w.addrF) ∨
+       (w.running = false ∧ c'.pc = .returned ∧ (c'.ret = some .errParse ∨ c'.ret = some .errListen) ∧
+          w'.running = false ∧ w'.lst = w.lst ∧ w'.lsnrs = w.lsnrs) ∨
+       (w.running = false ∧ c.kind = .bind ∧ c'.pc = .returned ∧ c'.ret = some .nil ∧
+          w'.running = false ∧ w'.lst = some w.lsnrs.length ∧ c'.l = w'.lst ∧ isOpen w' w.lsnrs.length = true) ∨
+       (w.running = false ∧ c.kind ≠ .bind ∧ c'.pc = .loopCheck ∧ c'.ret = c.ret ∧
+          w'.running = true ∧ w'.lst = some w.lsnrs.length ∧ c'.l = w'.lst ∧ isOpen w' w.lsnrs.length = true)) :=
+  bind_atomic_core hk hpc hs
+
+/-- **dolisten_atomic**: the start-up of `DoListen` is one step too: it leaves listener field, listeners and address
+    alone and either finds no listener (error, on to the deferred teardown) or is at the loop check with
+    `running = true` and its local `l` equal to the stored listener. -/
+theorem dolisten_atomic {w w' : World} {k : Nat} {c : Call} (hk : w.calls[k]? = some c) (hpc : c.pc = .readLst)
+    (hs : step w (.call k) = some w') :
+    ∃ c', w'.calls[k]? = some c' ∧ c'.kind = c.kind ∧ w'.lst = w.lst ∧ w'.lsnrs = w.lsnrs ∧ w'.addrF = w.addrF ∧
+      ((w.lst = none ∧ c'.pc = .teardown ∧ c'.ret = some .errNoListener ∧ w'.running = w.running) ∨
+       (∃ l, w.lst = some l ∧ c'.pc = .loopCheck ∧ c'.ret = c.ret ∧ c'.l = w'.lst ∧ w'.running = true)) :=
+  dolisten_atomic_core hk hpc hs
+
+/-- non-vacuity of the four outcomes of `bind_atomic` and the two of `dolisten_atomic`: refused / listen error (address
+    0 is held by the open listener 0) while and after serving, Bind ok, Listen ok, DoListen without and with a
+    listener -/
+example : ∃ w, run init [.spawn .doListen false none, .call 0,                          -- DoListen: no listener
+                         .spawn .bind false (some 0), .call 1,                          -- Bind ok: listener 0
+                         .spawn .listen false (some 0), .call 2,                        -- Listen, same address: listen error
+                         .spawn .bind false none, .call 3,                              -- Bind: parse error
+                         .spawn .doListen false none, .call 4,                          -- DoListen: serves listener 0
+                         .spawn .bind false (some 1), .call 5,                          -- Bind: refused
+                         .spawn .listen false (some 1), .call 6] = some w ∧             -- Listen: refused
+    w.running = true ∧ w.lst = some 0 ∧ w.lsnrs.map (fun x => (x.addr, x.isOpen)) = [(0, true)] ∧
+    w.calls.map (fun c => (c.pc, c.l, c.ret)) =
+      [(.teardown, none, some .errNoListener), (.returned, some 0, some .nil), (.returned, none, some .errListen),
+       (.returned, none, some .errParse), (.loopCheck, some 0, none), (.returned, none, some .errRunning),
+       (.returned, none, some .errRunning)] :=
+  ⟨_, rfl, by decide, by decide, by decide, by decide⟩
+
+example : ∃ w, run init [.spawn .listen false (some 7), .call 0] = some w ∧
+    w.running = true ∧ w.lst = some 0 ∧ w.addrF = some 7 ∧ isOpen w 0 = true ∧
+    w.calls.map (fun c => (c.pc, c.l, c.ret)) = [(.loopCheck, some 0, none)] :=
+  ⟨_, rfl, by decide, by decide, by decide, by decide, by decide⟩
+
+/-- **serving_call_listener** (every reachable state, NO discipline): a call in its accept loop has a listener, and
+    that listener is closed already, or it is the listener stored in the service and the service is running — so
+    the next Shutdown (which closes the stored listener) reaches it. -/
+theorem serving_call_listener {w : World} (h : Reachable w) {k : Nat} {c : Call} (hk : w.calls[k]? = some c)
+    (hp : loopPc c.pc = true) :
+    ∃ l, c.l = some l ∧ (Closed w l ∨ (w.lst = some l ∧ w.running = true)) :=
+  loop_listener h hk hp
+
+/-- **bind_window_gone**: while any serving call is in its accept loop on an OPEN listener, that listener is the one
+    stored in the service, the service is running, and therefore every Bind / Listen start-up is refused and
+    changes nothing. Before fix a1069ea a Bind could slip between DoListen's read of the listener and its
+    `running = true` (separate critical sections) and replace the stored listener under the serving call, which
+    Shutdown then could not reach any more; that interleaving does not exist in this transition system. -/
+theorem bind_window_gone {w : World} (h : Reachable w) {k : Nat} {c : Call} (hk : w.calls[k]? = some c)
+    (hp : loopPc c.pc = true) {l : Nat} (hl : c.l = some l) (ho : isOpen w l = true) :
+    w.lst = some l ∧ w.running = true ∧
+    ∀ (j : Nat) (cj : Call), w.calls[j]? = some cj → cj.pc = .bindCheck →
+      step w (.call j) = some { w with calls := w.calls.set j { cj with pc := .returned, ret := some .errRunning } } := by
+  obtain ⟨h1, h2⟩ := serving_open_is_stored h hk hp hl ho
+  exact ⟨h1, h2, fun j cj hj hpj => bind_refused_while_running hj hpj h2⟩
+
+/-- the schedule of the old window on the code as it is now (non-vacuity of `bind_window_gone`, both alternatives of
+    `serving_call_listener`): DoListen's start-up is one step, the Bind that follows is refused, Shutdown closes the
+    served listener 0 and the serving call's next step is enabled (it is not stuck in Accept) -/
+example : (run init [.spawn .bind false (some 0), .call 0,                               -- Bind: listener 0
+                     .spawn .doListen false none, .call 1,                               -- DoListen: l = 0 AND running = true
+                     .spawn .bind false (some 1), .call 2,                               -- Bind: refused
+                     .call 1,                                                            -- loop check; Accept
+                     .shutdown]).map (fun w => (obs w, w.lsnrs.length, (step w (.call 1)).isSome)) =
+    some (⟨false, some 0, false, [(.returned, some .nil), (.inAccept, none), (.returned, some .errRunning)], []⟩, 1, true) := by
+  decide
+
+/-- regression witness for the repaired defect (fix 93d57c1): with the OLD behaviour — the refused `Listen` ran
+    the deferred teardown — the history  serve; second Listen (refused); Shutdown; client connects  leaves the
+    first call blocked in Accept on a listener that Shutdown no longer finds, and the late client is accepted. -/
+def oldDefectTrace : Option World :=
+  (run init [.spawn .bind false (some 0), .call 0,                                  -- Bind
+             .spawn .doListen false none, .call 1, .call 1,                         -- DoListen … blocked in Accept
+             .spawn .listen false (some 1)]).bind fun w =>                          -- second Listen
+  (refusedListenOld w 2).bind fun w =>                                              -- OLD: refused + teardown
+  run w [.shutdown, .clientConnect 0, .call 1]                                      -- Shutdown; late client; Accept
+
 example : oldDefectTrace.map obs =
     some ⟨false, none, true,
           [(.returned, some .nil), (.gotConn, none), (.waiting, some .errRunning)], [.accepted]⟩ := by decide
 
 /-- the same history on the code as it is now: the late client is refused and the serving call ends with nil -/
-example : (run init [.spawn .bind false (some 0), .call 0, .call 0, .call 0, .call 0,
-             .spawn .doListen false none, .call 1, .call 1, .call 1,
+example : (run init [.spawn .bind false (some 0), .call 0,
+             .spawn .doListen false none, .call 1, .call 1,
              .spawn .listen false (some 1), .call 2,
              .shutdown, .clientConnect 0, .call 1, .call 1, .call 1, .call 1]).map obs =
     some ⟨false, none, false,
@@ -224,29 +321,21 @@ theorem no_service_after_shutdown {w w2 : World} (hr : Reachable w) {l : Nat} (h
 
 /-! ### Shutdown makes the serving call return -/
 
-/-- **shutdown_returns** (bounded progress, any interleaving): a serving call `k` is in its accept loop (orderly
-    use, so it serves the listener stored in the service). After `Shutdown` that listener is closed, and along EVERY
-    continuation — any interleaving of clients, faults, other threads, further API calls — the call's own step is
-    never blocked until it has run its teardown, and after `dist pc ≤ 7` of its own steps it waits for its
-    handlers (or has returned): it never accepts another connection and cannot get stuck in Accept. -/
-theorem shutdown_returns {w : World} (h : OReach w) {k : Nat} {c : Call} (hk : w.calls[k]? = some c)
+/-- **shutdown_returns_any** (bounded progress, EVERY reachable state, any interleaving, no discipline on API use):
+    a serving call `k` is in its accept loop. After `Shutdown` its listener is closed, and along EVERY continuation
+    — any interleaving of clients, faults, other threads, further API calls, orderly or not — the call's own step
+    is never blocked until it has run its teardown, and after `dist pc ≤ 7` of its own steps it waits for its
+    handlers (or has returned): it never accepts another connection and cannot get stuck in Accept.
+    "A Shutdown issued at any moment makes the serving call return." -/
+theorem shutdown_returns_any {w : World} (h : Reachable w) {k : Nat} {c : Call} (hk : w.calls[k]? = some c)
     (hp : loopPc c.pc = true) :
     ∃ l, c.l = some l ∧ Closed (stepShutdown w) l ∧ dist c.pc ≤ 7 ∧
       ∀ (ls : List Label) (w' : World), run (stepShutdown w) ls = some w' →
         ∃ c', w'.calls[k]? = some c' ∧
           ((loopish c'.pc = true ∧ dist c'.pc + ls.count (.call k) ≤ dist c.pc ∧ (∃ w'', step w' (.call k) = some w''))
             ∨ c'.pc = .waiting ∨ c'.pc = .returned) := by
-  obtain ⟨_, hv, ho⟩ := oreach_invs h
-  obtain ⟨e1, e2⟩ := (ho.own k c hk).loopL hp
-  obtain ⟨l, hl⟩ := Option.isSome_iff_exists.mp e2
-  have hlst : w.lst = some l := by rw [← e1]; exact hl
-  have hcl : Closed (stepShutdown w) l := by
-    have hlt := hv.lst l hlst
-    refine closed_of_isOpen_false (by simpa using hlt) ?_
-    simp only [stepShutdown, hlst, isOpen, closeL]
-    rw [List.getElem?_modify]
-    simp [hlt]
-  have hloopish : loopish c.pc = true := by cases hpc : c.pc <;> simp [hpc, loopPc] at hp <;> simp [loopish]
+  obtain ⟨l, hl, hcl⟩ := loop_listener_closed_by_shutdown h hk hp
+  have hloopish : loopish c.pc = true := loopish_of_loopPc hp
   refine ⟨l, hl, hcl, by cases c.pc <;> simp [dist], ?_⟩
   intro ls w' hrun
   have hk1 : (stepShutdown w).calls[k]? = some c := by rw [stepShutdown_calls]; exact hk
@@ -260,11 +349,35 @@ theorem shutdown_returns {w : World} (h : OReach w) {k : Nat} {c : Call} (hk : w
     exact ⟨w'', hs⟩
   · exact Or.inr hdone
 
-/-- … **with nil whenever Shutdown found the service waiting for a connection**: if the call was in Accept at the
-    Shutdown, then along every orderly continuation its return value is unset until it leaves the loop and is
-    `nil` from then on, for ever. -/
-theorem shutdown_in_accept_returns_nil {w w2 : World} (h : OReach w) {k : Nat} {c : Call}
-    (hk : w.calls[k]? = some c) (hpc : c.pc = .inAccept) (h2 : Reach Orderly (stepShutdown w) w2) :
+/-- non-vacuity beyond orderly use: TWO serving calls run on the same listener (the second was started while the
+    first was serving), a third party's Bind was refused; one Shutdown makes both return (here: with nil) -/
+example : ∃ w, Reachable w ∧ ¬ SReach w ∧
+    (w.calls.map (fun c => (c.pc, c.l))) = [(.returned, some 0), (.inAccept, some 0), (.inAccept, some 0)] ∧
+    ((run (stepShutdown w) [.call 1, .call 2, .call 1, .call 2, .call 1, .call 2, .call 1, .call 2]).map
+        (fun w' => w'.calls.map (fun c => (c.pc, c.ret)))) =
+      some [(.returned, some .nil), (.returned, some .nil), (.returned, some .nil)] :=
+  ⟨_, reach_of_run [.spawn .bind false (some 0), .call 0, .spawn .doListen false none, .call 1, .call 1,
+      .spawn .doListen false none, .call 2, .call 2] rfl,
+    fun hs => not_one_of_two_active 1 2 (by decide) (by decide) (by decide) (sreach_one hs),
+    by decide, by decide⟩
+
+/-- **shutdown_returns**: the same under the orderly discipline (kept under its old name; it is the special case
+    `OReach w → Reachable w` of `shutdown_returns_any`) -/
+theorem shutdown_returns {w : World} (h : OReach w) {k : Nat} {c : Call} (hk : w.calls[k]? = some c)
+    (hp : loopPc c.pc = true) :
+    ∃ l, c.l = some l ∧ Closed (stepShutdown w) l ∧ dist c.pc ≤ 7 ∧
+      ∀ (ls : List Label) (w' : World), run (stepShutdown w) ls = some w' →
+        ∃ c', w'.calls[k]? = some c' ∧
+          ((loopish c'.pc = true ∧ dist c'.pc + ls.count (.call k) ≤ dist c.pc ∧ (∃ w'', step w' (.call k) = some w''))
+            ∨ c'.pc = .waiting ∨ c'.pc = .returned) :=
+  shutdown_returns_any h.always hk hp
+
+/-- … **with nil whenever Shutdown found the service waiting for a connection**: the Shutdown is issued in ANY
+    reachable state in which the call is in Accept; if from then on no serving call is started while another API
+    call is in flight (`Serial`; everything else is free: clients, faults, stand-alone Binds, refused Listens), the
+    call's return value is unset until it leaves the loop and is `nil` from then on, for ever. -/
+theorem shutdown_in_accept_returns_nil {w w2 : World} (h : Reachable w) {k : Nat} {c : Call}
+    (hk : w.calls[k]? = some c) (hpc : c.pc = .inAccept) (h2 : Reach Serial (stepShutdown w) w2) :
     ∃ c2, w2.calls[k]? = some c2 ∧
       (((c2.pc = .inAccept ∨ c2.pc = .errOther) ∧ c2.ret = none) ∨
        ((c2.pc = .teardown ∨ c2.pc = .waiting ∨ c2.pc = .returned) ∧ c2.ret = some .nil)) := by
@@ -273,6 +386,33 @@ theorem shutdown_in_accept_returns_nil {w w2 : World} (h : OReach w) {k : Nat} {
   rcases hout with ⟨hp, hr, _⟩ | hd
   · exact Or.inl ⟨hp, hr⟩
   · exact Or.inr hd
+
+/-- non-vacuity: the state at the Shutdown is reachable but not orderly (two serving calls in Accept), the
+    continuation is serial (a stand-alone Bind in the middle of it is allowed and succeeds), both calls return nil -/
+example : ∃ w w2, Reachable w ∧ (w.calls.map (·.pc)) = [.returned, .inAccept, .inAccept] ∧
+    Reach Serial (stepShutdown w) w2 ∧
+    w2.calls.map (fun c => (c.pc, c.ret)) =
+      [(.returned, some .nil), (.returned, some .nil), (.returned, some .nil), (.returned, some .nil)] :=
+  ⟨_, _, reach_of_run [.spawn .bind false (some 0), .call 0, .spawn .doListen false none, .call 1, .call 1,
+      .spawn .doListen false none, .call 2, .call 2] rfl, by decide,
+    reach_of_runS [.call 1, .call 1, .spawn .bind false (some 5), .call 3, .call 1, .call 1,
+      .call 2, .call 2, .call 2, .call 2] rfl, by decide⟩
+
+/-- `Serial` is NECESSARY for the nil return, both clauses (this is what the code does, not an artefact): a `Listen`
+    resp. a `DoListen` started after the Shutdown, while the shut-down call has not yet done its `isRunning()` check,
+    sets `running` again, and the first call returns the Accept error instead of nil. The offending step violates
+    `Serial` (`serial_iff_B`). -/
+example : (run init [.spawn .bind false (some 0), .call 0, .spawn .doListen false none, .call 1, .call 1, .shutdown,
+                     .spawn .listen false (some 1)]).map
+      (fun w => (decide (serialB w (.call 2) = true), (run w [.call 2, .call 1, .call 1]).map
+                   (fun w' => w'.calls.map (fun c => (c.pc, c.ret))))) =
+    some (false, some [(.returned, some .nil), (.teardown, some .errAccept), (.loopCheck, none)]) := by decide
+
+example : (run init [.spawn .bind false (some 0), .call 0, .spawn .doListen false none, .call 1, .call 1, .shutdown,
+                     .spawn .doListen false none]).map
+      (fun w => (decide (serialB w (.call 2) = true), (run w [.call 2, .call 1, .call 1]).map
+                   (fun w' => w'.calls.map (fun c => (c.pc, c.ret))))) =
+    some (false, some [(.returned, some .nil), (.teardown, some .errAccept), (.loopCheck, none)]) := by decide
 
 /-- … **as soon as the connections already accepted have ended**: a call that waits for its handlers can take its
     last step exactly when every connection it accepted is finished, and that step is the return. -/
@@ -360,9 +500,11 @@ theorem handler_progress {w : World} (h : Reachable w) {i : Nat} {x : Conn} (hi 
 
 /-! ### the service is reusable -/
 
-/-- **reusable**: (orderly use) the step by which a serving call returns leaves the shared state of the service
-    exactly as it was initially — not running, no listener, no address, `conncounter = 0`, no wait-group panic —
-    and no API call in flight, so any further history (bind, serve, …) is possible again on the same object. -/
+/-- **reusable**: (orderly use: every API call — Bind, Listen, DoListen — executes its start-up step only when no
+    other API call is in flight, or, Bind/Listen, while the service is running and it is refused) the step by which
+    a serving call returns leaves the shared state of the service exactly as it was initially — not running, no
+    listener, no address, `conncounter = 0`, no wait-group panic — and no API call in flight, so any further history
+    (bind, serve, …) is possible again on the same object. -/
 theorem reusable {w w' : World} (h : OReach w) {k : Nat} {c : Call} (hk : w.calls[k]? = some c)
     (hpc : c.pc = .waiting) (hs : step w (.call k) = some w') :
     w'.running = init.running ∧ w'.lst = init.lst ∧ w'.addrF = init.addrF ∧ w'.counter = init.counter ∧
@@ -373,39 +515,58 @@ theorem reusable {w w' : World} (h : OReach w) {k : Nat} {c : Call} (hk : w.call
     with the step enabled; and a second bind + serve on the same object gets to Accept again -/
 example : ∃ w, OReach w ∧ (w.calls[1]?).map (fun c => (c.pc, c.wg, c.ret)) = some (.waiting, 0, some .nil) ∧
     w.counter = 0 ∧ (step w (.call 1)).isSome = true :=
-  ⟨_, reach_of_runB [.spawn .bind false (some 0), .call 0, .call 0, .call 0, .call 0,
-      .spawn .doListen false none, .call 1, .call 1, .call 1, .clientConnect 0, .call 1, .call 1, .call 1, .call 1,
+  ⟨_, reach_of_runB [.spawn .bind false (some 0), .call 0,
+      .spawn .doListen false none, .call 1, .call 1, .clientConnect 0, .call 1, .call 1, .call 1, .call 1,
       .shutdown, .call 1, .call 1, .call 1, .clientClose 0, .handler 0, .handler 0, .handler 0, .handler 0] rfl,
     by decide, by decide, by decide⟩
 
 example : ∃ w, OReach w ∧ w.calls.map (fun c => (c.pc, c.ret)) =
       [(.returned, some .nil), (.returned, some .nil), (.returned, some .nil), (.inAccept, none)] ∧
     w.running = true ∧ w.lst = some 1 :=
-  ⟨_, reach_of_runB [.spawn .bind false (some 0), .call 0, .call 0, .call 0, .call 0,
-      .spawn .doListen false none, .call 1, .call 1, .call 1, .shutdown, .call 1, .call 1, .call 1, .call 1,
-      .spawn .bind false (some 0), .call 2, .call 2, .call 2, .call 2,
-      .spawn .doListen false none, .call 3, .call 3, .call 3] rfl,
+  ⟨_, reach_of_runB [.spawn .bind false (some 0), .call 0,
+      .spawn .doListen false none, .call 1, .call 1, .shutdown, .call 1, .call 1, .call 1, .call 1,
+      .spawn .bind false (some 0), .call 2,
+      .spawn .doListen false none, .call 3, .call 3] rfl,
     by decide, by decide, by decide⟩
 
-/-! ### why the orderly discipline is a hypothesis
+/-! ### what is still assumed about API use, and why
 
-  Overlapping API calls are outside the property's promise ("afterwards the same service object can be bound and
-  served again"), but the general model shows what the code does with them; the running check of `Bind` and the
-  later `running = true` of the serving call are two critical sections. -/
+  Since fix a1069ea the running check of `Bind`, the store of the listener and the serving call's `running = true`
+  are one critical section, and the transition system has them as one step; the old hypothesis about what may happen
+  INSIDE the start-up of a call (a Bind/Listen runs its check only while running or while all other calls are idle,
+  to keep other threads out of the window between the check and `running = true`) is gone, and so is the restriction
+  on spawning a DoListen.  What remains restricts only WHEN a call executes its start-up step:
 
-/-- (the code BEFORE fix a1069ea, where these were separate critical sections — the model still has this finer
-    granularity, see the header of Lifecycle.lean; `vh lifeprobe` checks on every run that the real code no longer
-    shows it)
-    a `Bind` that slips between DoListen's read of the listener and its `running = true` is NOT refused: DoListen
-    then serves the old listener while the field holds the new one; Shutdown closes only the new one, and the
-    serving call stays blocked in Accept on a listener nobody can close any more. -/
-example : (run init [.spawn .bind false (some 0), .call 0, .call 0, .call 0, .call 0,   -- Bind: listener 0
-                     .spawn .doListen false none, .call 1,                               -- DoListen reads l = 0
-                     .spawn .bind false (some 1), .call 2, .call 2, .call 2, .call 2,    -- Bind: field = listener 1
-                     .call 1, .call 1,                                                   -- running = true; loop; Accept
-                     .shutdown]).map (fun w => (obs w, isOpen w 1, (step w (.call 1)).isSome)) =
-    some (⟨false, some 1, true, [(.returned, some .nil), (.inAccept, none), (.returned, some .nil)], []⟩, false, false) := by
+  * nothing at all for: accounting (`accounted_once`), draining (`drains`), the refused second bind
+    (`bind_refused_while_running`, `second_bind_refused_any`), `no_service_after_shutdown`, `shutdown_returns_any`,
+    `serving_call_listener`, `bind_window_gone`, `wait_returns_when_drained`, `handler_progress`;
+  * `Serial` after the Shutdown for `shutdown_in_accept_returns_nil` (necessity: the two examples there);
+  * `Orderly` = `Serial` + the same rule for a stand-alone Bind, over the whole history, for `reusable`: overlapping
+    API calls are outside the property's promise ("afterwards the same service object can be bound and served
+    again"), and the two examples below show what the code does with them. -/
+
+/-- the stand-alone-Bind clause of `Orderly` is NECESSARY for `reusable`: under `Serial` alone a Bind may run between
+    the serving call's teardown and its return (the service is not running, so it is not refused); the listener it
+    stores is still there when the serving call returns. The Bind's step violates `Orderly` (`orderly_iff_B`). -/
+example : ∃ w w', SReach w ∧ (w.calls[1]?).map (·.pc) = some .waiting ∧ step w (.call 1) = some w' ∧
+    (w'.calls[1]?).map (·.pc) = some .returned ∧ w'.lst = some 1 ∧ w'.addrF = some 1 ∧ isOpen w' 1 = true :=
+  ⟨_, _, reach_of_runS [.spawn .bind false (some 0), .call 0, .spawn .doListen false none, .call 1, .call 1,
+      .shutdown, .call 1, .call 1, .call 1, .spawn .bind false (some 1), .call 2] rfl,
+    by decide, rfl, by decide, by decide, by decide, by decide⟩
+
+example : (run init [.spawn .bind false (some 0), .call 0, .spawn .doListen false none, .call 1, .call 1,
+      .shutdown, .call 1, .call 1, .call 1, .spawn .bind false (some 1)]).map
+        (fun w => (decide (serialB w (.call 2) = true), decide (orderlyB w (.call 2) = true))) = some (true, false) := by
   decide
+
+/-- the serving-call clause is NECESSARY for `reusable` too ("no API call in flight"): a second DoListen started
+    while the first is serving (its start-up step violates `Serial`) is still in its loop when the first returns —
+    the first call's teardown has closed the shared listener and cleared the fields under it -/
+example : (run init [.spawn .bind false (some 0), .call 0, .spawn .doListen false none, .call 1, .call 1,
+      .spawn .doListen false none]).map
+        (fun w => (decide (serialB w (.call 2) = true), (run w [.call 2, .call 2, .shutdown, .call 1, .call 1, .call 1, .call 1]).map
+                     (fun w' => w'.calls.map (fun c => (c.pc, c.ret))))) =
+    some (false, some [(.returned, some .nil), (.returned, some .nil), (.inAccept, none)]) := by decide
 
 /-- **Tie to the source**: the declarations of /repo that this property's model transliterates
     (`Extracted.codeNames_C14`) have, in the current working tree, exactly the fingerprints of the code the
